@@ -45,6 +45,14 @@ Proof.
   - cbn [rs_errs rs_budget]. split; [exists []; rewrite app_nil_r; reflexivity|]. intros -> _. reflexivity.
 Qed.
 
+Lemma do_step_sent_ok fl ft r c :
+  rs_errs (do_step fl ft r (DestCmd c)) = rs_errs r -> rs_sent (do_step fl ft r (DestCmd c)) = rs_sent r ++ [c].
+Proof.
+  unfold do_step. destruct (snd _); cbn [rs_errs rs_sent]; intros H; [exfalso|reflexivity].
+  assert (L : length (rs_errs r ++ [e]) = length (rs_errs r)) by (rewrite H; reflexivity).
+  rewrite app_length in L. cbn in L. lia.
+Qed.
+
 Lemma run_step_errs fl ft r s : exists l, rs_errs (run_step fl ft r s) = rs_errs r ++ l.
 Proof.
   unfold run_step. destruct (rs_srcfail r); [exists []; rewrite app_nil_r; reflexivity|].
@@ -90,8 +98,8 @@ Proof.
     assert (Hf' : rs_srcfail (run_steps fl ft (do_step fl ft r s) steps) = false) by exact Hf.
     destruct (IH (do_step fl ft r s) (Hbud Hb E1) Hs1 E2' Hf') as (I1 & I2 & I3).
     unfold run_steps in I1, I2, I3. rewrite I1, I2, I3. repeat split.
-    + unfold do_step. destruct s as [c|p]; cbn [rs_sent app].
-      * destruct (snd _); cbn [rs_sent]; rewrite <- app_assoc; reflexivity.
+    + destruct s as [c|p]; cbn [app].
+      * rewrite (do_step_sent_ok fl ft r c E1), <- app_assoc. reflexivity.
       * reflexivity.
     + unfold do_step. destruct s as [c|p]; cbn [rs_src app].
       * destruct (snd _); cbn [rs_src]; reflexivity.
